@@ -6,6 +6,7 @@ import VlsModel.Gen.FnHtlcTx
 import VlsModel.Gen.FnOnchainWrap
 import VlsModel.Gen.FnChannelSweep
 import VlsModel.Gen.FnHandlerSweep
+import VlsModel.Gen.FnNodeAllowlist
 import VlsModel.Lemmas.NodeWalletFn
 import VlsModel.Lemmas.Sweep
 import VlsModel.Lemmas.FnGen
@@ -1259,5 +1260,118 @@ theorem C09_fn_sign_delayed_payment_to_us_signed (SO : Oct → Scr) (XP : Psbt S
             exact ⟨o, u, ch, path, sig, rfl, hu, rfl, rfl, hs, h.symm⟩
 
 end HandlerSweep
+
+/-! ## Round 9: allowlist maintenance (`Node::add_allowlist / set_allowlist / remove_allowlist`, node.rs, `Gen/FnNodeAllowlist.lean`)
+
+"Allowlisted" in clause 1 means: in the list the operator last established.  For every parser `P` and persister `U`
+(externals): the three functions compute the new list, hand **that** list to `update_allowlist` (what is stored = what is
+in memory), and fail without changing anything if parsing fails.  `set_allowlist` keeps nothing of the old list
+(`mem_set`), `remove_allowlist` leaves no removed entry (`mem_remove`) — the two stored seeds C09-r3-2 (persist before
+the removal) and C09-r5-2 (`retain` instead of `clear`) change the regenerated text and break these equalities. -/
+section NodeAllowlist
+open VlsModel.Gen.FnNodeAllowlist (Node NodeState Allowable)
+
+variable {S X K : Type} [DecidableEq S] [DecidableEq X] [DecidableEq K]
+
+theorem fold_state (f : List (Allowable S X K) → Allowable S X K → List (Allowable S X K)) (as : List (Allowable S X K)) :
+    ∀ n : Node S X K,
+    List.foldl (fun (self : Node S X K) a => { self with state := { self.state with allowlist := f self.state.allowlist a } }) n as
+      = { state := { allowlist := as.foldl f n.state.allowlist } } := by
+  induction as with
+  | nil => intro n; rfl
+  | cons a rest ih => intro n; simp only [List.foldl_cons]; rw [ih]
+
+/-- the new list of each operation -/
+def addedTo (old as : List (Allowable S X K)) : List (Allowable S X K) := as.foldl Rs.asetInsert old
+def removedFrom (old as : List (Allowable S X K)) : List (Allowable S X K) := as.foldl (fun l a => l.filter (fun e => e != a)) old
+
+theorem C09_fn_add_allowlist (P : List String → Rs.M (List (Allowable S X K))) (U : NodeState S X K → Rs.M Unit)
+    (n : Node S X K) (adds : List String) :
+    Node.add_allowlist (ext_self_parse_allowables := P) (ext_self_update_allowlist := U) n adds
+      = (do let as ← P adds
+            U { allowlist := addedTo n.state.allowlist as }
+            pure { state := { allowlist := addedTo n.state.allowlist as } }) := by
+  unfold Node.add_allowlist addedTo
+  cases P adds with
+  | error e => rfl
+  | ok as =>
+    simp only [Rs.bind_ok]
+    rw [fold_state Rs.asetInsert as n]
+
+theorem C09_fn_set_allowlist (P : List String → Rs.M (List (Allowable S X K))) (U : NodeState S X K → Rs.M Unit)
+    (n : Node S X K) (list : List String) :
+    Node.set_allowlist (ext_self_parse_allowables := P) (ext_self_update_allowlist := U) n list
+      = (do let as ← P list
+            U { allowlist := addedTo [] as }
+            pure { state := { allowlist := addedTo [] as } }) := by
+  unfold Node.set_allowlist addedTo
+  cases P list with
+  | error e => rfl
+  | ok as =>
+    simp only [Rs.bind_ok]
+    rw [fold_state Rs.asetInsert as { state := { allowlist := [] } }]
+
+theorem C09_fn_remove_allowlist (P : List String → Rs.M (List (Allowable S X K))) (U : NodeState S X K → Rs.M Unit)
+    (n : Node S X K) (removes : List String) :
+    Node.remove_allowlist (ext_self_parse_allowables := P) (ext_self_update_allowlist := U) n removes
+      = (do let as ← P removes
+            U { allowlist := removedFrom n.state.allowlist as }
+            pure { state := { allowlist := removedFrom n.state.allowlist as } }) := by
+  unfold Node.remove_allowlist removedFrom
+  cases P removes with
+  | error e => rfl
+  | ok as =>
+    simp only [Rs.bind_ok]
+    rw [fold_state (fun l a => l.filter (fun e => e != a)) as n]
+
+theorem mem_asetInsert (l : List (Allowable S X K)) (a x : Allowable S X K) : x ∈ Rs.asetInsert l a ↔ x ∈ l ∨ x = a := by
+  unfold Rs.asetInsert
+  by_cases h : l.contains a = true
+  · have : a ∈ l := by simpa using h
+    simp only [h, if_true]
+    constructor
+    · exact Or.inl
+    · rintro (h1 | rfl)
+      · exact h1
+      · exact this
+  · have hn : a ∉ l := by simpa using h
+    simp [hn]
+
+theorem mem_addedTo (as : List (Allowable S X K)) : ∀ (old : List (Allowable S X K)) (x : Allowable S X K),
+    x ∈ addedTo old as ↔ x ∈ old ∨ x ∈ as := by
+  induction as with
+  | nil => intro old x; simp [addedTo]
+  | cons a rest ih =>
+    intro old x
+    have := ih (Rs.asetInsert old a) x
+    simp only [addedTo, List.foldl_cons] at this ⊢
+    rw [this, mem_asetInsert]
+    simp only [List.mem_cons]
+    exact or_assoc
+
+/-- after `set_allowlist` exactly the entries of the new list are allowlisted: nothing of the old list survives -/
+theorem mem_set (as : List (Allowable S X K)) (x : Allowable S X K) : x ∈ addedTo [] as ↔ x ∈ as := by
+  simp [mem_addedTo]
+
+theorem mem_removedFrom (as : List (Allowable S X K)) : ∀ (old : List (Allowable S X K)) (x : Allowable S X K),
+    x ∈ removedFrom old as ↔ x ∈ old ∧ x ∉ as := by
+  induction as with
+  | nil => intro old x; simp [removedFrom]
+  | cons a rest ih =>
+    intro old x
+    have := ih (old.filter (fun e => e != a)) x
+    simp only [removedFrom, List.foldl_cons] at this ⊢
+    rw [this]
+    simp only [List.mem_filter, List.mem_cons, bne_iff_ne, ne_eq, not_or]
+    exact and_assoc
+
+/-- after `remove_allowlist` no removed entry is allowlisted (in memory and in what was handed to the persister) -/
+theorem mem_remove (old as : List (Allowable S X K)) (x : Allowable S X K) (hx : x ∈ as) : x ∉ removedFrom old as := by
+  rw [mem_removedFrom]; exact fun h => h.2 hx
+
+example : removedFrom [Allowable.Script 1, .XPub 2, .Payee (3 : Nat)] [Allowable.XPub 2] = [Allowable.Script 1, .Payee 3]
+    ∧ addedTo [] [Allowable.Script (5 : Nat), .Script 5, .XPub (6 : Nat)] = [Allowable.Script 5, Allowable.XPub 6 (PublicKey := Nat)] := by decide
+
+end NodeAllowlist
 
 end VlsModel.Props.C09Fn
